@@ -36,6 +36,7 @@ What is proved, and for whom:
 of `h` is a `steal`).
 -/
 import Uniflow.Proofs.TeardownNode
+import Uniflow.Proofs.DropCommute
 
 open Uniflow Uniflow.Writer Uniflow.Teardown Uniflow.TeardownProofs Uniflow.WriterProofs
 
@@ -291,21 +292,26 @@ theorem C03.frame_nonvacuous :
 to it closed).
 
 **Fairness assumption (not proved, it is about the Go scheduler):** a fair step that is enabled
-is eventually taken – the goroutines `Reader.Close` spawned run (`deliverDrop`), the pump
-goroutine of a closed writer returns (`pumpExit`), and a requester parked in `<-Receive()` is
-handed a buffered packet or the closed channel (`recv`).  Under it the facts below give release
-after at most `μ` fair steps: (a) while the requester is owed anything a fair step is enabled;
-(b) every fair step strictly decreases the measure `μ = 2·pending rows + buffered packets +
-held-back drop notices + responses still owed + [pump goroutine still running]`; (c) a torn-down
+is eventually taken – the goroutines `Reader.Close` spawned run (`deliverDrop`), a goroutine
+that has popped a request inside `Reader.Receive` goes on into `(*Writer).receive` (`deliver`),
+the pump goroutine of a closed writer returns (`pumpExit`), and a requester parked in
+`<-Receive()` is handed a buffered packet or the closed channel (`recv`).  Under it the facts
+below give release after at most `μ` fair steps: (a) while the requester is owed anything a fair
+step is enabled; (b) every fair step strictly decreases the measure `μ = 2·pending rows +
+buffered packets + held-back drop notices + answers in flight + responses still owed + [pump
+goroutine still running]` – an answer in flight decreases it whether it is credited to its row
+or ignored (stale link generation, row gone); (c) a torn-down
 writer accepts no further write, so nothing new becomes owed; (d) spelled out as a run: some
 sequence of at most `μ` fair steps ends with nothing owed, and each result on the way is a
 packet the writer emitted or – writer closed – the closed channel, which `Send` reports as
 `dropped`. -/
 def C03.Releases (c : Comp) : Prop :=
-  (c.outstanding > 0 → c.p.buf ≠ [] ∨ c.p.exited = true ∨ (c.w.done = false ∧ ∃ r ∈ c.w.readers, (c.w.drops r).length > 0)) ∧
+  (c.outstanding > 0 → c.p.buf ≠ [] ∨ c.p.exited = true ∨
+    (c.w.done = false ∧ ∃ r ∈ c.w.readers, (c.w.drops r).length > 0 ∨ (c.w.flight r).length > 0)) ∧
   (c.outstanding > 0 → (c.p.buf ≠ [] ∨ c.p.exited = true) → mu (applyC .discard c .recv).1 < mu c) ∧
   (c.p.inClosed = true → c.p.exited = false → mu (applyC .discard c .pumpExit).1 < mu c) ∧
   (∀ r ∈ c.w.readers, c.w.done = false → (c.w.drops r).length > 0 → mu (applyC .discard c (.w (.deliverDrop r))).1 < mu c) ∧
+  (∀ r ∈ c.w.readers, c.w.done = false → (c.w.flight r).length > 0 → mu (applyC .discard c (.w (.deliver r 0))).1 < mu c) ∧
   (∀ v, (applyC .discard c (.w (.write v))).1.accepted = c.accepted) ∧
   (∃ cs, (∀ x ∈ cs, IsFair x) ∧ cs.length ≤ mu c ∧ (runC .discard c cs).outstanding = 0 ∧
     ∀ x ∈ (runC .discard c cs).got, (∃ a, x = .got a ∧ a ∈ (runC .discard c cs).p.pushed) ∨
@@ -323,21 +329,20 @@ liveness claim: not proved is that steps of *other* threads on the same writer (
 `closeR` of an unlinked reader, …) never increase `μ` – only (c), that no new response becomes
 owed – and fairness is an assumption.  It speaks of the requester of the torn-down writer
 itself; for a requester upstream of a node see `C03.teardown_releases_upstream_partial`.
-Since `Reader.Receive` is modelled with its window (C01: `pop` / `deliver`), the statement is
-about a torn-down writer none of whose readers has an answer in flight (`hnf`): an answer that
-was popped before the teardown and not yet delivered would be released by the additional fair
-step `deliver`, which the measure `μ` and `IsFair` do not count yet. -/
+`Reader.Receive` is modelled with its window (C01: `pop` / `deliver`): answers that were popped
+before the teardown and not yet delivered are in `flight`; their delivery is a fair step, counted
+in `μ`, so the statement holds with answers in flight at the torn-down writer too. -/
 theorem C03.teardown_releases_partial (t : Topo) (h : List Teardown.Step) (hs : RunNoSteal h) (w : WId)
-    (ht : TornDown ((Teardown.run .discard t {} h).comp w))
-    (hnf : ∀ r, ((Teardown.run .discard t {} h).comp w).w.flight r = []) :
+    (ht : TornDown ((Teardown.run .discard t {} h).comp w)) :
     C03.Releases ((Teardown.run .discard t {} h).comp w) := by
   have hi := cinv_reach t h hs w
   have hb : Backed ((Teardown.run .discard t {} h).comp w) :=
     backed_run .discard t {} h (fun _ => backed_init) w
-  refine ⟨enabled _ hi hb ht hnf, fun ho hen => (recv_decreases _ hi ho hen).1,
+  refine ⟨enabled _ hi hb ht, fun ho hen => (recv_decreases _ hi ho hen).1,
     fun hc he => (exit_decreases _ hc he).1,
-    fun r hr hnd hd => (drop_decreases _ hi hb r hr hnd hd).1, torn_no_accept _ ht, ?_⟩
-  obtain ⟨cs, f, l, o, i⟩ := release (mu ((Teardown.run .discard t {} h).comp w)) _ (Nat.le_refl _) hi hb ht hnf
+    fun r hr hnd hd => (drop_decreases _ hi hb r hr hnd hd).1,
+    fun r hr hnd hd => (deliver_decreases _ hi hb r hr hnd hd).1, torn_no_accept _ ht, ?_⟩
+  obtain ⟨cs, f, l, o, i⟩ := release (mu ((Teardown.run .discard t {} h).comp w)) _ (Nat.le_refl _) hi hb ht
   exact ⟨cs, f, l, o, got_shape _ i⟩
 
 /-- Non-vacuity: a node between a source writer (0) and a sink; two requests in flight; the
@@ -360,6 +365,21 @@ theorem C03.teardown_releases_partial_nonvacuous_reader :
     ((Teardown.run .discard {} {} h).comp 0).w.done = false ∧
     ((Teardown.run .discard {} {} h).comp 0).w.closed 0 = true ∧
     ((Teardown.run .discard {} {} h).comp 0).outstanding = 2 ∧ mu ((Teardown.run .discard {} {} h).comp 0) = 9 := by
+  decide
+
+/-- … and one with an answer in flight at the torn-down writer: the reader's owner has popped the
+request (`Reader.Receive` up to the release of `r.mu`) when the reader is closed, so `Reader.Close`
+finds nothing pending and spawns no drop notice; the only enabled fair step is the delivery of the
+answer in flight, which is credited to the row of its own write: the requester receives the real
+answer. -/
+theorem C03.teardown_releases_partial_nonvacuous_flight :
+    let h : List Teardown.Step := [.prim 0 (.w (.link 0)), .prim 0 (.w (.write 7)), .prim 0 (.w (.pop 0 (.val 5))),
+      .down (.readerClose 0 0)]
+    ((Teardown.run .discard {} {} h).comp 0).w.closed 0 = true ∧
+    (((Teardown.run .discard {} {} h).comp 0).w.flight 0).length = 1 ∧
+    (((Teardown.run .discard {} {} h).comp 0).w.drops 0).length = 0 ∧
+    ((Teardown.run .discard {} {} h).comp 0).outstanding = 1 ∧ mu ((Teardown.run .discard {} {} h).comp 0) = 5 ∧
+    ((Teardown.run .discard {} {} (h ++ [.prim 0 (.w (.deliver 0 0)), .prim 0 .recv])).comp 0).got = [.got (.val 5)] := by
   decide
 
 /-! ## A requester upstream of a node whose out-writer alone is closed -/
@@ -633,4 +653,56 @@ theorem C03.closed_port_answers_dropped :
      ((Teardown.run .discard t {} h).comp 0).p.buf = [] ∧
      ((Teardown.run .discard t {} h).comp 0).w.done = false ∧
      (Teardown.run .discard t {} h).queue 9 = [(0, 1)]) := by
+  decide
+
+/-! ## The order in which drop notices are delivered does not matter -/
+
+/-- **Drop notices commute.**  `Reader.Close` spawns one goroutine per request the reader still
+owes; each runs `(*Writer).receive(dropped, r, link, write)`; the Go scheduler runs them in any
+order, while the model's `deliverDrop r` takes the oldest first.  Since responses are matched to
+their rows by write number (fix b041313) the order is immaterial: in every reachable state, for
+every writer `w`, every reader `r` and every permutation `ns` of the notices held back for `r`,
+delivering them in the order `ns` leaves exactly the same writer machine – rows, write numbers,
+everything – and makes the writer emit exactly the same responses, in the same order, as
+delivering them oldest first (`DropCommute.dropAll`: one `receive` per notice; the notices' own
+bookkeeping, `drops r`, is emptied either way).  This is what allows the harness to release the
+held-back notices in random order and to compare with the model afterwards. -/
+theorem C03.drop_notices_commute (t : Topo) (h : List Teardown.Step) (hs : RunNoSteal h) (w : WId) (r : RId)
+    (ns : List (Nat × Nat)) (hp : ns.Perm (((Teardown.run .discard t {} h).comp w).w.drops r)) :
+    DropCommute.dropAll ((Teardown.run .discard t {} h).comp w).w r ns =
+      DropCommute.dropAll ((Teardown.run .discard t {} h).comp w).w r (((Teardown.run .discard t {} h).comp w).w.drops r) := by
+  obtain ⟨sp, hR⟩ := backed_run .discard t {} h (fun _ => backed_init) w
+  have ht : DropCommute.Tied ((Teardown.run .discard t {} h).comp w).w sp :=
+    ⟨hR.readers, hR.rows, hR.writes, hR.done, hR.linksLen, hR.inv.toCore⟩
+  -- the write numbers of the held-back notices are strictly increasing
+  obtain ⟨cs, _, e⟩ := run_evolves .discard t {} h hs w
+  have hq : DropCommute.QSorted ((Teardown.run .discard t {} h).comp w).w := by
+    rw [e, runC_w]
+    exact DropCommute.qsorted_run _ _ DropCommute.qsorted_init
+  have hnd : ((((Teardown.run .discard t {} h).comp w).w.drops r).map Prod.snd).Nodup :=
+    (hq.drops r).imp (fun hlt => Nat.ne_of_lt hlt)
+  cases hc : ((Teardown.run .discard t {} h).comp w).w.closed r with
+  | false =>
+    have hd := hR.dropsOpen r hc
+    rw [hd] at hp ⊢
+    rw [List.Perm.eq_nil hp]
+  | true =>
+    apply DropCommute.dropAll_perm hp _ sp ht ((hp.map Prod.snd).nodup_iff.2 hnd)
+    intro n hn hslot
+    apply hR.ent r n _ hslot
+    have : n ∈ ((Teardown.run .discard t {} h).comp w).w.drops r := hp.mem_iff.1 hn
+    simp only [WriterProofs.entries, WriterProofs.fifo, hc, if_true, List.mem_append]
+    exact Or.inl this
+
+/-- Non-vacuity: three requests outstanding, the reader closed: three notices are held back;
+delivered youngest first or oldest first, the rows are gone and the same three `dropped`
+responses have been emitted. -/
+theorem C03.drop_notices_commute_nonvacuous :
+    let h : List Teardown.Step := [.prim 0 (.w (.link 0)), .prim 0 (.w (.write 7)), .prim 0 (.w (.write 8)),
+      .prim 0 (.w (.write 9)), .down (.readerClose 0 0)]
+    let m := ((Teardown.run .discard {} {} h).comp 0).w
+    m.drops 0 = [(1, 0), (1, 1), (1, 2)] ∧
+    (DropCommute.dropAll m 0 [(1, 2), (1, 0), (1, 1)]).2 = [Resp.dropped, Resp.dropped, Resp.dropped] ∧
+    (DropCommute.dropAll m 0 [(1, 2), (1, 0), (1, 1)]).1.rows = [] ∧
+    (DropCommute.dropAll m 0 (m.drops 0)).2 = [Resp.dropped, Resp.dropped, Resp.dropped] := by
   decide
